@@ -1,4 +1,5 @@
 import QcelVerif.Model.Measure
+import QcelVerif.Model.MeasureSrc
 import QcelVerif.Lib.Proto
 /-!
 Line-protocol driver for the C18 model, executed at `K = ℚ` (every double is an exact rational).
@@ -15,8 +16,14 @@ Fields are separated by `|`, points are `x,y,z` (rationals `p/q`), point lists a
   M|coords|L|i,j;i,j,k       -> M many D:d2 A:dot:nn  (`-` = empty list, empty field = one empty measurement)
   C|thr|dc|r:x,y,z;…         -> C 0-1 0-2   (dc = N or rational; with truthy dc: 0-1:dc)
   RIG|a,b,c,d|h|t|pts        -> RIG x,y,z;…   p ↦ Hh(quatRot(a,b,c,d) p) + t  (h = N: no reflection)
+
+THREE-WAY: every D / A / H / BD / BA / BH / C answer is computed twice — by the hand model
+(`Model/Measure.lean`) and by the exact evaluators of `Model/MeasureAst.lean` on the terms that
+`harness/c18_src.py` regenerated from the source (`Gen/MeasureSrc.lean`, through `Model/MeasureSrc.lean`).
+If the two agree the line is printed as above; otherwise `SRCDIFF <hand line> ## <source-derived line>`
+(`## undefined` when the generated term is outside the shape the exact evaluator handles).
 -/
-open QcelVerif QcelVerif.Measure QcelVerif.Proto
+open QcelVerif QcelVerif.Measure QcelVerif.Proto QcelVerif.MeasureSrc
 
 abbrev Q := Rat
 
@@ -56,42 +63,81 @@ def parseAtom? (s : String) : Option (Atom Q) :=
       pure ⟨r, p⟩
   | _ => none
 
+/-- hand line vs source-derived line -/
+def threeWay (hand : String) (src : Option String) : String :=
+  match src with
+  | some s => if s == hand then hand else s!"SRCDIFF {hand} ## {s}"
+  | none => s!"SRCDIFF {hand} ## undefined"
+
+def allSome {α : Type} : List (Option α) → Option (List α)
+  | [] => some []
+  | none :: _ => none
+  | some a :: rest => (allSome rest).map (a :: ·)
+
+def showA (v : Q × Q) : String := s!"{showRat v.1}:{showRat v.2}"
+def showH (v : Q × Q × Q) : String := s!"{showRat v.1}:{showRat v.2.1}:{showRat v.2.2}"
+
+/-- source-derived rows under the hand model's handling of the leading axis (`bcast`) -/
+def srcRowsD (a b : List (V3 Q)) : Option (List Q) :=
+  let n := max a.length b.length
+  match bcast n a, bcast n b with
+  | .ok a, .ok b => allSome (List.zipWith srcDistSq a b)
+  | _, _ => none
+
+def srcRowsA (a b c : List (V3 Q)) : Option (List (Q × Q)) :=
+  let n := max (max a.length b.length) c.length
+  match bcast n a, bcast n b, bcast n c with
+  | .ok a, .ok b, .ok c => allSome (zipWith3 srcAngleArgs a b c)
+  | _, _, _ => none
+
+def srcRowsH (a b c d : List (V3 Q)) : Option (List (Q × Q × Q)) :=
+  let n := max (max a.length b.length) (max c.length d.length)
+  match bcast n a, bcast n b, bcast n c, bcast n d with
+  | .ok a, .ok b, .ok c, .ok d => allSome (zipWith4 srcDihedralArgs a b c d)
+  | _, _, _, _ => none
+
 def stepC18 (line : String) : String :=
   match splitOnChar line '|' with
   | ["D", pts] =>
     match parsePts? pts with
-    | some [p, q] => s!"D {showRat (distSq p q)}"
+    | some [p, q] => threeWay s!"D {showRat (distSq p q)}" ((srcDistSq p q).map fun d => s!"D {showRat d}")
     | _ => "bad-op"
   | ["A", pts] =>
     match parsePts? pts with
-    | some [p, q, r] => let a := angleArgs p q r; s!"A {showRat a.1} {showRat a.2}"
+    | some [p, q, r] =>
+      let a := angleArgs p q r
+      threeWay s!"A {showRat a.1} {showRat a.2}"
+        ((srcAngleArgs p q r).map fun a => s!"A {showRat a.1} {showRat a.2}")
     | _ => "bad-op"
   | ["H", pts] =>
     match parsePts? pts with
     | some [p, q, r, s] =>
       let a := dihedralArgs p q r s
-      s!"H {showRat a.1} {showRat a.2.1} {showRat a.2.2}"
+      threeWay s!"H {showRat a.1} {showRat a.2.1} {showRat a.2.2}"
+        ((srcDihedralArgs p q r s).map fun a => s!"H {showRat a.1} {showRat a.2.1} {showRat a.2.2}")
     | _ => "bad-op"
   | ["BD", l1, l2] =>
     match parsePts? l1, parsePts? l2 with
     | some a, some b =>
       match computeDistanceSq a b with
-      | .ok vs => "BD " ++ " ".intercalate (vs.map showRat)
+      | .ok vs => threeWay ("BD " ++ " ".intercalate (vs.map showRat))
+          ((srcRowsD a b).map fun vs => "BD " ++ " ".intercalate (vs.map showRat))
       | .error e => "BD err " ++ showErr e
     | _, _ => "bad-op"
   | ["BA", l1, l2, l3] =>
     match parsePts? l1, parsePts? l2, parsePts? l3 with
     | some a, some b, some c =>
       match computeAngleArgs a b c with
-      | .ok vs => "BA " ++ " ".intercalate (vs.map fun v => s!"{showRat v.1}:{showRat v.2}")
+      | .ok vs => threeWay ("BA " ++ " ".intercalate (vs.map showA))
+          ((srcRowsA a b c).map fun vs => "BA " ++ " ".intercalate (vs.map showA))
       | .error e => "BA err " ++ showErr e
     | _, _, _ => "bad-op"
   | ["BH", l1, l2, l3, l4] =>
     match parsePts? l1, parsePts? l2, parsePts? l3, parsePts? l4 with
     | some a, some b, some c, some d =>
       match computeDihedralArgs a b c d with
-      | .ok vs => "BH " ++ " ".intercalate
-          (vs.map fun v => s!"{showRat v.1}:{showRat v.2.1}:{showRat v.2.2}")
+      | .ok vs => threeWay ("BH " ++ " ".intercalate (vs.map showH))
+          ((srcRowsH a b c d).map fun vs => "BH " ++ " ".intercalate (vs.map showH))
       | .error e => "BH err " ++ showErr e
     | _, _, _, _ => "bad-op"
   | ["DM", l1, l2] =>
@@ -121,10 +167,18 @@ def stepC18 (line : String) : String :=
     match parseRat? thr, dc?, (splitOnChar atoms ';').mapM parseAtom? with
     | some thr, some dc, some atoms =>
       let con := guessConnectivityDC thr dc atoms
-      trimStr ("C " ++ " ".intercalate (con.map fun (i, j, v) =>
+      let showPairs (l : List (Nat × Nat)) : String :=
+        trimStr ("C " ++ " ".intercalate (l.map fun (i, j) => s!"{i}-{j}"))
+      let hand := trimStr ("C " ++ " ".intercalate (con.map fun (i, j, v) =>
         match v with
         | none => s!"{i}-{j}"
         | some v => s!"{i}-{j}:{showRat v}"))
+      -- the pair list (before default_connectivity is attached) against the loop regenerated from the source
+      let handPairs := guessConnectivity thr atoms
+      if !srcConnExactDefined thr atoms then s!"SRCDIFF {hand} ## undefined"
+      else
+        let src := srcConnExact thr atoms
+        if src == handPairs then hand else s!"SRCDIFF {hand} ## {showPairs src}"
     | _, _, _ => "bad-op"
   | ["RIG", q, h, t, pts] =>
     match splitOnChar q ',', parseV3? t, parsePts? pts with
